@@ -71,7 +71,10 @@ const (
 	// with the histogram bucket bound values.
 	DefaultHistogramBucketTagPrecision = uint(6)
 
-	_emitMetricBatchOverhead    = 19
+	// _emitMetricBatchOverhead is the number of bytes by which the header of
+	// the metrics list can outgrow that of the empty list measured in
+	// NewReporter (compact protocol: a varint32 length).
+	_emitMetricBatchOverhead    = 5
 	_minMetricBucketIDTagLength = 4
 	_timeResolution             = 100 * time.Millisecond
 )
@@ -243,7 +246,12 @@ func NewReporter(opts Options) (Reporter, error) {
 		proto = resourcePool.getProto()
 	)
 
-	if err := batch.Write(proto); err != nil {
+	// n.b. Measure the whole message - envelope, argument struct and the batch
+	//      with its common tags - exactly as the client emits it, with the
+	//      sequence id that has the longest encoding.
+	calcClient := m3thrift.NewM3ClientProtocol(proto.Transport(), proto, proto)
+	calcClient.SeqId = math.MaxInt32 - 1
+	if err := calcClient.EmitMetricBatchV2(batch); err != nil {
 		return nil, errors.WithMessage(
 			err,
 			"failed to write to proto for size calculation",
@@ -408,27 +416,35 @@ func (r *reporter) AllocateHistogram(
 				durationUpperBound: pair.UpperBoundDuration(),
 				metric:             &counter,
 			}
-			delta = len(r.bucketIDTagName) + len(r.bucketTagName) + len(hbucket.bucketID)
 		)
 
 		hbucket.metric.metric.Tags = mtags
-		hbucket.metric.size = r.calculateSize(hbucket.metric.metric)
 
 		if isDuration {
-			bname := r.stringInterner.Intern(
+			hbucket.bucket = r.stringInterner.Intern(
 				r.durationBucketString(prevDuration) + "-" +
 					r.durationBucketString(pair.UpperBoundDuration()),
 			)
-			hbucket.bucket = bname
-			hbucket.metric.size += int32(delta + len(bname))
-			cachedDurationBuckets = append(cachedDurationBuckets, hbucket)
 		} else {
-			bname := r.stringInterner.Intern(
+			hbucket.bucket = r.stringInterner.Intern(
 				r.valueBucketString(prevValue) + "-" +
 					r.valueBucketString(pair.UpperBoundValue()),
 			)
-			hbucket.bucket = bname
-			hbucket.metric.size += int32(delta + len(bname))
+		}
+
+		// n.b. Size the metric with the two bucket tags that process() appends
+		//      at emission in place, so that their encoding is charged in full.
+		sized := hbucket.metric.metric
+		sized.Tags = append(
+			append(make([]m3thrift.MetricTag, 0, len(mtags)+2), mtags...),
+			m3thrift.MetricTag{Name: r.bucketIDTagName, Value: hbucket.bucketID},
+			m3thrift.MetricTag{Name: r.bucketTagName, Value: hbucket.bucket},
+		)
+		hbucket.metric.size = r.calculateSize(sized)
+
+		if isDuration {
+			cachedDurationBuckets = append(cachedDurationBuckets, hbucket)
+		} else {
 			cachedValueBuckets = append(cachedValueBuckets, hbucket)
 		}
 
